@@ -20,12 +20,15 @@ impl ChannelEndState {
 }
 
 impl Channel {
-    // Representation invariant: sender credit never exceeds what the receiver has granted and not yet
-    // consumed; at or below the low-water mark the sender knows everything the receiver granted.
+    // Representation invariant, property level: the sender's credit never exceeds what the receiver has granted and not
+    // yet consumed (so nothing is forwarded beyond the grants, and a sender within its announced credit is never cut
+    // off), and the sender is never left at zero credit while the receiver has credit outstanding (no stuck sender).
+    // Deliberately NOT part of the invariant: the value of the low-water mark and when exactly replenishment happens
+    // above zero (implementation policy; changing it does not break the property).
     spec fn inv(&self) -> bool {
         &&& (self.sender is Claimed && self.receiver is Claimed) ==> {
                 &&& self.sender.cap() <= self.receiver.cap()
-                &&& (self.sender.cap() <= LOW_CAPACITY ==> self.sender.cap() == self.receiver.cap())
+                &&& (self.sender.cap() == 0 ==> self.receiver.cap() == 0)
             }
         &&& (self.sender is Claimed && self.receiver is Unclaimed) ==> self.sender.cap() == 0
     }
